@@ -247,21 +247,21 @@ func (w *walker) object(path string, v reflect.Value, outermost bool, depth int)
 			}
 			key, arg, msg := ParseItem(item)
 			if key == "re" { // the message of a re rule follows the closing quote
-				msg = reMsg(item)
+				msg = ReMsg(item)
 			}
 			e := Exp{Path: fpath, Obj: path, Field: f.Name, Item: item, Key: key, Msg: msg}
 			switch {
 			case w.cfg.CallFns[key]:
 				if !fv.IsZero() {
 					e.Kind, e.Msg = "value", "custom call "+key
-					w.setEcho(&e, fv)
+					SetEcho(&e, fv)
 					seq = append(seq, Item{C: &e})
 					w.viol(first)
 				}
 			case w.cfg.GlobalFns[key]:
 				if !fv.IsZero() {
 					e.Kind, e.Msg = "value", "custom global "+key
-					w.setEcho(&e, fv)
+					SetEcho(&e, fv)
 					seq = append(seq, Item{C: &e})
 					w.viol(first)
 				}
@@ -327,7 +327,7 @@ func (w *walker) object(path string, v reflect.Value, outermost bool, depth int)
 					w.res.Satisfied++
 				case Violated:
 					e.Kind = "value"
-					w.setEcho(&e, fv)
+					SetEcho(&e, fv)
 					if key == "to" || key == "oto" {
 						if _, b, a := SizeVerdict(key, arg, fv); b && a {
 							e.Twice = true
@@ -359,7 +359,7 @@ func (w *walker) viol(first bool) {
 
 // reMsg extracts the custom message of a re rule: the text after the first "|"
 // that follows the closing quote of the pattern.
-func reMsg(item string) string {
+func ReMsg(item string) string {
 	q := strings.LastIndex(item, "'")
 	if q < 0 {
 		return ""
@@ -371,7 +371,8 @@ func reMsg(item string) string {
 	return ""
 }
 
-func (w *walker) setEcho(e *Exp, fv reflect.Value) {
+// SetEcho fills the expected echo of a value clause.
+func SetEcho(e *Exp, fv reflect.Value) {
 	if e.Key == "json" {
 		return // the echo of json is escaped / truncated: not asserted
 	}
